@@ -15,7 +15,9 @@ RULE = ('peptide-like molecules of 1-4 residues (N-CA-C backbone, optional CB), 
         'modification sets drawn from: the matching modifications, sub-patterns of one another (P / P-O / P-O2), an '
         'anchor-only modification, modifications with replace (rename, remove), a residue-spanning modification; real '
         'fix_ptm with identify_ptms / find_ptm_atoms wrapped to read groups, residues and identified placements; '
-        'warnings captured. non-trivial = at least one identified and one failed group, or a sub-pattern choice; distinct by input')
+        'warnings captured; shipped data: peptides built from the shipped charmm blocks with terminal / protonation groups '
+        '(C-ter, COOH-ter, N-ter, NH2-ter, GLU-HE2, ASP-HD2, N-cap, zinc, phosphorus) attached under arbitrary names and the 16 '
+        'shipped charmm modifications (sub-patterns of one another). non-trivial = at least one identified and one failed group, or a sub-pattern choice; distinct by input')
 ASSUMPTIONS = ['atoms already labelled with modifications by RepairGraph (the used_mods branch of identify_ptms) are not generated',
                'which of several equivalent placements is taken depends on networkx enumeration order: the correspondence compares which modifications were identified, the statement is judged on the placements the implementation reports']
 TRUSTED = ['networkx GraphMatcher (replaced by C06\'s reference enumeration in the model)',
@@ -123,8 +125,131 @@ def gen_case(rng):
     return {'atoms': atoms, 'bonds': bonds, 'mods': order}
 
 
+# ---------------------------------------------------------------- shipped data
+REAL_PTMS = {
+    'cter': ('C', [('O', 'x1', 'C')]), 'cooh': ('C', [('O', 'x1', 'C'), ('H', 'x2', 'x1')]),
+    'nter': ('N', [('H', 'y1', 'N'), ('H', 'y2', 'N')]), 'nh2': ('N', [('H', 'y1', 'N')]),
+    'gluh': ('OE2', [('H', 'z1', 'OE2')]), 'asph': ('OD2', [('H', 'z1', 'OD2')]),
+    'ncap': ('N', [('C', 'w1', 'N'), ('H', 'w2', 'w1'), ('H', 'w3', 'w1'), ('H', 'w4', 'w1')]),
+    'zinc': ('CA', [('Zn', 'q1', 'CA')]), 'phos_no_h': ('CA', [('P', 'q2', 'CA')]),
+}
+
+
+def gen_real_case(rng):
+    from . import c01
+    seq = [rng.choice(c01.REAL_RESIDUES) for _ in range(rng.randint(1, 4))]
+    ptms = []
+    for i, r in enumerate(seq):
+        for _ in range(rng.choice([0, 1, 1, 2])):
+            k = rng.choice(sorted(REAL_PTMS))
+            if k == 'gluh' and r != 'GLU' or k == 'asph' and r != 'ASP':
+                continue
+            if (i, REAL_PTMS[k][0]) not in [(j, REAL_PTMS[q][0]) for j, q in ptms]:
+                ptms.append((i, k))
+    return {'kind': 'real', 'seq': seq, 'ptms': [[i, k] for i, k in ptms], 'first_resid': rng.choice([1, 3]), 'seed': rng.randrange(10 ** 6)}
+
+
+class _Codes:
+    def __init__(self):
+        self.d = {}
+
+    def __call__(self, x):
+        return self.d.setdefault(x, len(self.d) + 1)
+
+
+def run_real(inp):
+    import vermouth.molecule as vm
+    from vermouth.processors import canonicalize_modifications as cm
+    from . import c01
+    env = c01.real_env()
+    ff = env['ffs']['charmm']
+    mol = vm.Molecule(force_field=ff)
+    key, resid, prevC = 0, inp['first_resid'], None
+    locs = []
+    for resname in inp['seq']:
+        block = ff.blocks[resname]
+        local = {}
+        for nme in block.nodes:
+            key += 1
+            attrs = dict(block.nodes[nme])
+            attrs.update(resid=resid, chain='A', atomid=key, element=nme.lstrip('0123456789')[:1])
+            mol.add_node(key, **attrs)
+            local[nme] = key
+        for u, v in block.edges:
+            mol.add_edge(local[u], local[v])
+        if prevC is not None and 'N' in local:
+            mol.add_edge(prevC, local['N'])
+        prevC = local.get('C')
+        locs.append((resid, resname, local))
+        resid += 1
+    for i, k in inp['ptms']:
+        rid, resname, local = locs[i]
+        anchor, extra = REAL_PTMS[k]
+        if anchor not in local:
+            continue
+        new = {}
+        for el, tag, to in extra:
+            key += 1
+            new[tag] = key
+            mol.add_node(key, atomname='X%d' % key, element=el, resid=rid, resname=resname, chain='A', atomid=key, PTM_atom=True)
+            mol.add_edge(key, local[to] if to in local else new[to])
+    names, els = _Codes(), _Codes()
+    atoms = [{'key': k, 'name': names(mol.nodes[k]['atomname']), 'el': els(mol.nodes[k].get('element')), 'resid': mol.nodes[k]['resid'],
+              'ptm': bool(mol.nodes[k].get('PTM_atom'))} for k in mol.nodes]
+    bonds = [list(e) for e in mol.edges]
+    mods = []
+    mod_index = {}
+    for mi, (mname, m) in enumerate(ff.modifications.items()):
+        mk = {k: i for i, k in enumerate(m.nodes)}
+        mod_index[mname] = mi + 1
+        nodes = []
+        for k, nd in m.nodes(data=True):
+            rep = nd.get('replace', {})
+            nodes.append([mk[k], names(nd['atomname']), els(nd.get('element')), bool(nd.get('PTM_atom')),
+                          '-' if 'atomname' not in rep else (None if rep['atomname'] is None else names(rep['atomname']))])
+        mods.append({'id': mi + 1, 'nodes': nodes, 'edges': [[mk[u], mk[v]] for u, v in m.edges], '_mk': mk})
+    groups, runs = [], []
+    orig_find, orig_ident = cm.find_ptm_atoms, cm.identify_ptms
+
+    def find_wrapper(molecule):
+        out = orig_find(molecule)
+        groups.extend([[sorted(a), sorted(b)] for a, b in out])
+        return out
+
+    def ident_wrapper(residue, residue_ptms, known_ptms):
+        rec = {'residue': sorted(residue.nodes), 'groups': [[sorted(a), sorted(b)] for a, b in residue_ptms]}
+        runs.append(rec)
+        try:
+            out = orig_ident(residue, residue_ptms, known_ptms)
+        except KeyError:
+            rec['identified'] = None
+            raise
+        rec['identified'] = [[mod_index[p.graph['name']], [[mods[mod_index[p.graph['name']] - 1]['_mk'][v], k] for k, v in m.items()]] for p, m in out]
+        return out
+    handler = _Catch()
+    lg = logging.getLogger('vermouth')
+    lg.addHandler(handler)
+    cm.find_ptm_atoms, cm.identify_ptms = find_wrapper, ident_wrapper
+    try:
+        cm.CanonicalizeModifications().run_molecule(mol)
+    finally:
+        cm.find_ptm_atoms, cm.identify_ptms = orig_find, orig_ident
+        lg.removeHandler(handler)
+    final = []
+    for k in mol.nodes:
+        nd = mol.nodes[k]
+        nm = nd.get('atomname')
+        final.append({'key': k, 'name': None if nm is None else names(nm), 'labels': [mod_index[m.graph['name']] for m in nd.get('modifications', [])]})
+    for m in mods:
+        m.pop('_mk')
+    warnings = sum(1 for r in handler.records if 'Could not identify the modifications' in str(r.msg))
+    return {'atoms': atoms, 'bonds': bonds, 'mods': mods, 'groups': groups, 'runs': runs, 'final': final, 'warnings': warnings}
+
+
 def generate(rng, tier):
-    return [gen_case(rng) for _ in range(500 if tier == 'quick' else 8000)]
+    cases = [gen_case(rng) for _ in range(500 if tier == 'quick' else 8000)]
+    cases += [gen_real_case(rng) for _ in range(60 if tier == 'quick' else 1000)]
+    return cases
 
 
 # ---------------------------------------------------------------- implementation
@@ -138,6 +263,8 @@ class _Catch(logging.Handler):
 
 
 def run_impl(inp):
+    if inp.get('kind') == 'real':
+        return run_real(inp)
     import vermouth.forcefield
     import vermouth.molecule as vm
     from vermouth.processors import canonicalize_modifications as cm
@@ -219,7 +346,26 @@ def mod_lit(name):
         pairs_lit(edges))
 
 
+def emit_real(inp, out):
+    def newname(rep):
+        if rep == '-':
+            return 'None'
+        return '(Some %s)' % optlit(rep, zlit)
+    mods = listlit(out['mods'], lambda m: '{| md_id := %s; md_nodes := %s; md_edges := %s |}' % (
+        zlit(m['id']), listlit(m['nodes'], lambda n: '{| d_key := %s; d_name := %s; d_el := %s; d_ptm := %s; d_newname := %s |}' % (
+            zlit(n[0]), zlit(n[1]), zlit(n[2]), blit(n[3]), newname(n[4]))), pairs_lit(m['edges'])))
+    atoms = listlit(out['atoms'], lambda a: '{| t_key := %s; t_name := %s; t_el := %s; t_resid := %s; t_ptm := %s |}' % (
+        zlit(a['key']), zlit(a['name']), zlit(a['el']), zlit(a['resid']), blit(a['ptm'])))
+    runs = listlit(out['runs'], lambda r: '{| r_residue := %s; r_groups := %s; r_identified := %s |}' % (
+        listlit(r['residue'], zlit), groups_lit(r['groups']),
+        'None' if r['identified'] is None else '(Some %s)' % listlit(r['identified'], lambda im: '(%s, %s)' % (zlit(im[0]), pairs_lit(im[1])))))
+    final = listlit(out['final'], lambda a: '{| f_key := %s; f_name := %s; f_labels := %s |}' % (zlit(a['key']), optlit(a['name'], zlit), listlit(a['labels'], zlit)))
+    return 'CFix %s %s %s %s %s %s %s' % (mods, atoms, pairs_lit(out['bonds']), groups_lit(out['groups']), runs, final, natlit(out['warnings']))
+
+
 def emit(inp, out):
+    if inp.get('kind') == 'real':
+        return emit_real(inp, out)
     atoms = listlit(inp['atoms'], lambda a: '{| t_key := %s; t_name := %s; t_el := %s; t_resid := %s; t_ptm := %s |}' % (
         zlit(a['key']), zlit(NAME.get(a['name'], 50 + sum(map(ord, a['name'])) % 40)), zlit(ELEM[a['el']]), zlit(a['resid']), blit(a['ptm'])))
     runs = listlit(out['runs'], lambda r: '{| r_residue := %s; r_groups := %s; r_identified := %s |}' % (
@@ -230,6 +376,8 @@ def emit(inp, out):
 
 
 def nontrivial(inp, out):
+    if inp.get('kind') == 'real':
+        return str(inp) if out['runs'] else None
     ok = [r for r in out['runs'] if r['identified'] is not None]
     failed = [r for r in out['runs'] if r['identified'] is None]
     subpattern = len({'PHOS', 'PHOSO', 'PHOSO2'} & set(inp['mods'])) >= 2 and ok
@@ -239,6 +387,9 @@ def nontrivial(inp, out):
 
 
 def describe(inp, out):
+    if inp.get('kind') == 'real':
+        return {'real_n_runs': min(len(out['runs']), 4), 'real_failed': sum(1 for r in out['runs'] if r['identified'] is None),
+                'real_kinds': '+'.join(sorted({k for _, k in inp['ptms']})) or 'none'}
     return {'n_groups': min(len(out['groups']), 4), 'n_runs': min(len(out['runs']), 4),
             'n_failed': min(sum(1 for r in out['runs'] if r['identified'] is None), 3),
             'n_mods': len(inp['mods']), 'anchor_only_mod': 'ANCH' in inp['mods'],
@@ -247,5 +398,9 @@ def describe(inp, out):
 
 
 def shrink(inp):
+    if inp.get('kind') == 'real':
+        for i in range(len(inp['ptms'])):
+            yield dict(inp, ptms=inp['ptms'][:i] + inp['ptms'][i + 1:])
+        return
     for i in range(len(inp['mods'])):
         yield dict(inp, mods=inp['mods'][:i] + inp['mods'][i + 1:])
